@@ -68,6 +68,10 @@ def expr_text(e):
         br = "()" if e[1] == "t" else "[]"
         tail = "," if e[1] == "t" else ""   # (x,) is a tuple, (x) is not
         return "Uniform(" + ", ".join(br[0] + ", ".join(expr_text(x) for x in row) + tail + br[1] for row in e[2]) + ")"
+    if t == "tcat":     # a constant tuple / list concatenated with a random container (either side)
+        br = "()" if e[1] == "t" else "[]"
+        lit = br[0] + ", ".join(str(v) for v in e[2]) + ("," if e[1] == "t" else "") + br[1]
+        return f"({lit} + {expr_text(e[3])})" if e[4] == "left" else f"({expr_text(e[3])} + {lit})"
     if t == "tidx":
         return f"{expr_text(e[1])}[{expr_text(e[2])}]"
     if t == "starcall":
@@ -260,6 +264,12 @@ def to_prog(ast, max_iter):
                 raise IllFormed("constant options are not lifted element-wise")
             idx = node("drange", a=[const(0), const(len(rows) - 1)], lo=0, hi=len(rows) - 1)
             return ("T", idx, rows)
+        if t == "tcat":     # same index node as the container: every row gets the constants on that side
+            h = ev(e[3])
+            if not (isinstance(h, tuple) and h[0] == "T"):
+                raise IllFormed("concatenation with a non-container")
+            cs = [const(v) for v in e[2]]
+            return ("T", h[1], [(cs + list(r)) if e[4] == "left" else (list(r) + cs) for r in h[2]])
         if t == "tidx":
             h = ev(e[1])
             if not (isinstance(h, tuple) and h[0] == "T"):
@@ -679,6 +689,9 @@ def container_core():
             [("let", "u", ("tuni", kind, [[X, Y, L(3)], [L(0), X, Y]])), ("param", "a", ("starcall", "vite", U)),
              ("param", "b", ("bin", "add", ("tidx", U, L(2)), ("tidx", U, L(0))))],
             [("let", "u", ("tuni", kind, [[X], [("drange", L(2), Y)]])), ("param", "a", ("starcall", "vmin", U)), ("param", "b", ("tidx", U, L(0)))],
+            # a CONSTANT container on either side of `+`: the order of the operands is the order of the elements
+            [("let", "u", ("tuni", kind, [[X, Y], [Y, L(7)]])), ("param", "a", ("tidx", ("tcat", kind, [8, 9], U, "left"), L(0))),
+             ("param", "b", ("tidx", ("tcat", kind, [8, 9], U, "right"), ("drange", L(-1), L(0))))],
         ]
     V = ("vec", X, Y)
     bodies += [
